@@ -33,6 +33,8 @@ def run(ctx) -> None:
     ctx.rule("C17.R5-expansion-context", "a value of the environment is expanded from the environment's own variables, or - for a "
                                          "variable imported through DEFAULTS - from the launch value of that same variable only; "
                                          "no other launch value can replace a variable the environment defines itself")
+    ctx.rule("C17.R6-builders-do-not-mutate-the-configuration", "the environment builders work on copies: nothing reachable from self "
+             "(e.g. the runtime's system variables) is modified, so one lookup cannot leak variables into the next")
     ctx.rule("C17.R4-name-case", "environment names are lower-cased by every reader and writer")
 
     conf = ctx.repo.module(CONF)
@@ -116,6 +118,17 @@ def run(ctx) -> None:
                "os.path.expandvars is applied before/without expanding from the environment's own variables")
         exp = match.test_nodes(CFG(ewn), lambda t: "T" if isinstance(t, ast.Name) and t.id == "expand" else None)
         ctx.ob("C17.R1-launch-env-reads", c, bool(exp), "expansion only when requested", trivial=True)
+    # ---------------- R6 -------------------------------------------------------------------------------
+    from checks.c14 import mutations_of_self
+    for f in (efn, ewn, den):
+        muts = mutations_of_self(f)
+        ctx.ob("C17.R6-builders-do-not-mutate-the-configuration", muts[0] if muts else f, not muts,
+               "%s modifies nothing that belongs to the configuration object" % f.name if not muts else
+               "%s modifies an object of the configuration through an alias (%s): what one lookup adds (the default environment, "
+               "DEFAULTS imports - possibly the whole launch environment) is still there for the next lookup, so 'none' and named "
+               "environments contain variables they must not" % (f.name, short(muts[0], 70)),
+               construct="%s does not mutate self" % f.name)
+
     # ---------------- R5 -------------------------------------------------------------------------------
     xs = [c for c in source.calls_in(ewn, include_nested=True) if last_attr(c) == "expand_vars" or call_name(c) == "expand_vars"]
     ctx.floor("C17.R5-expansion-context", len(xs), 2, "expand_vars calls in environmentWithName")
@@ -227,7 +240,19 @@ def run(ctx) -> None:
                         and n2.func.value.id == v.id and n2.func.attr in ("update", "setdefault"):
                     texts.append(source.src(n2))
         return not any(f in t for t in texts for f in FOREIGN if not (f == "os.environ" and "os.path.expandvars" in t and "os.environ" not in t))
-    okb = all("_system_vars" in source.src(s.ast.value) or source.src(s.ast.value) == "environment.copy()" or isinstance(s.ast.value, ast.DictComp)
+    def from_system_vars(v: ast.AST, depth: int = 0) -> bool:
+        """the value is (a copy of) the runtime's system variables, possibly through a local bound to them"""
+        if depth > 3:
+            return False
+        if "_system_vars" in source.src(v):
+            return True
+        for n in ast.walk(v):
+            if isinstance(n, ast.Name):
+                vals = match.assigned_value(ewn, n.id)
+                if vals and all(from_system_vars(x, depth + 1) for x in vals):
+                    return True
+        return False
+    okb = all(from_system_vars(s.ast.value) or source.src(s.ast.value) == "environment.copy()" or isinstance(s.ast.value, ast.DictComp)
               or (s.id in after_table and rebuilt_from_itself(s.ast.value))
               for s in starts)
     ctx.ob("C17.R2-branch-table", ewn, okb, "the environment always starts from the runtime's system variables" if okb else
